@@ -288,8 +288,10 @@ func checkC07(c *Ctx) {
 	c.runSemFamily("FamWild", wild, o, 60*time.Minute)
 	c.runSemFamily("FamMath", math, o, 60*time.Minute)
 	c.runSemFamily("FamOps", "FamOps_quick.cfg", o, 60*time.Minute)
+	c.runSemFamily("FamCalls", "FamCalls_quick.cfg", o, 60*time.Minute)
+	c.runSemFamily("FamFaults", "FamFaults_quick.cfg", o, 60*time.Minute)
 	c.cov("exhaustive", false)
-	c.cov("rule", "FamWild (46 indexing / property / call / operator / built-in / statement forms x 20 values of every kind and boundary magnitude x 6 partner values, self-containing arrays and objects handed to every consumer, deep bracket / unary / call nesting and bounded recursion, seeded grammar-based random programs), FamMath (every built-in x argument count x kinds) and FamOps (operator matrix): every program must end normally or with a reported runtime error - a recovered Go panic, a fatal error that kills the worker process, or a hang is a violation; programs whose text output the specification leaves open are still run for crash-freedom")
+	c.cov("rule", "FamCalls (callees of every kind x argument counts, one call site reused with callees of other arity, recursion) and FamFaults (every fault kind at every position), FamWild (46 indexing / property / call / operator / built-in / statement forms x 20 values of every kind and boundary magnitude x 6 partner values, self-containing arrays and objects handed to every consumer, deep bracket / unary / call nesting and bounded recursion, seeded grammar-based random programs), FamMath (every built-in x argument count x kinds) and FamOps (operator matrix): every program must end normally or with a reported runtime error - a recovered Go panic, a fatal error that kills the worker process, or a hang is a violation; programs whose text output the specification leaves open are still run for crash-freedom")
 	semAssumptions(c)
 }
 
